@@ -1,6 +1,5 @@
 //! Drivers: the four protocol operations through the library (`Server`) or through the real
 //! HTTP handlers in process (`WebServer::config` + `actix_web::test`).
-use crate::base::Shared;
 use actix_web::dev::{Service, ServiceResponse};
 use actix_web::{test, App};
 use serde_json::{json, Value};
@@ -123,7 +122,7 @@ pub struct LibDriver {
 }
 
 impl LibDriver {
-    pub fn new(cfg: ServerConfig, storage: Shared) -> Self {
+    pub fn new<ST: taskchampion_sync_server_core::Storage + 'static>(cfg: ServerConfig, storage: ST) -> Self {
         LibDriver { server: Server::new(cfg, storage) }
     }
 }
@@ -208,10 +207,10 @@ pub struct HttpDriver<S> {
     pub app: S,
 }
 
-pub fn make_http_driver(
+pub fn make_http_driver<ST: taskchampion_sync_server_core::Storage + 'static>(
     cfg: ServerConfig,
     allow: Option<HashSet<Uuid>>,
-    storage: Shared,
+    storage: ST,
 ) -> HttpDriver<impl Service<actix_http::Request, Response = ServiceResponse, Error = actix_web::Error>> {
     let ws = WebServer::new(cfg, allow, storage);
     let sys = actix_rt::System::new();
